@@ -174,6 +174,8 @@ def t08_tgt(run, fx):
 
 
 def check(run, fx, tier, floors=True):
+    import bsearch
+    bsearch.rule_bsearch(run, fx, "T08-BS", select=lambda b: b.file.startswith(('src/subset.rs', 'src/tables/cmap')), floors=floors, floor_n=0)
     if (floors and run.config in (None, "prince")) or any(b.root.endswith("prince::subset") for b in fx.bodies):
         t08_tgt(run, fx)
     t08_ts(run, fx)
